@@ -76,7 +76,13 @@ func (p lexPath) clone() lexPath {
 	return q
 }
 
-func analyseLexerArms(w *World) *lexerModel {
+func analyseLexerArms(w *World) *lexerModel { return analyseLexer(w, true) }
+
+// analyseLexerArmsLight resolves the roles only (struct, fields, readChar,
+// peekChar, constructor, methods); it does not need the token switch.
+func analyseLexerArmsLight(w *World) *lexerModel { return analyseLexer(w, false) }
+
+func analyseLexer(w *World, arms bool) *lexerModel {
 	m := &lexerModel{w: w, info: w.Pkgs["lexer"].TypesInfo, scanners: map[*types.Func]string{}}
 	m.typ = w.NamedType("lexer", "Lexer")
 	if m.typ == nil {
@@ -223,6 +229,9 @@ func analyseLexerArms(w *World) *lexerModel {
 		} else if f.Decl.Name.IsExported() {
 			m.nextTok = f
 		}
+	}
+	if !arms {
+		return m
 	}
 	if m.insideTk == nil || m.peekChar == nil {
 		m.problems = append(m.problems, "inside-tag token function with a switch on the current character / peek function")
@@ -938,14 +947,16 @@ func (m *lexerModel) productions() map[string][]string {
 	return out
 }
 
-func c06LexerLiterals(r *Run, m *lexerModel) {
+func c06LexerLiterals(r *Run) {
 	w := r.W
-	if len(m.problems) > 0 || m.insideTk == nil {
-		r.Lost("R6", "lexer model: "+strings.Join(m.problems, "; "))
+	lm := w.lexSSA()
+	if !lm.ok() {
+		r.Lost("R6", lm.why())
 		return
 	}
-	fn := m.insideTk.Name()
-	prods := m.productions()
+	fn := ssaName(lm.inside)
+	prods := lm.productions()
+	swPos := lm.inside.Pos()
 	// operator tokens = infix registry minus call/index, plus '!'
 	ops := map[string]bool{"!": true}
 	for _, g := range w.registrations() {
@@ -969,14 +980,14 @@ func c06LexerLiterals(r *Run, m *lexerModel) {
 				// the evaluator then reports 'unknown operator' (an error, not a wrong result)
 				r.Note("lexer produces MATCHES with literal %q for a lone '~' (evaluates to an 'unknown operator' error)", l)
 			} else {
-				r.Bad("R6", fn, fmt.Sprintf("token %s with literal %q", op, l), w.Pos(m.sw.Pos()),
+				r.Bad("R6", fn, fmt.Sprintf("token %s with literal %q", op, l), w.Pos(swPos),
 					"the literal attached to an operator token differs from the operator's spelling; the evaluator dispatches on the literal")
 			}
 		}
 		if found {
-			r.Ok("R6", fn, "token "+op, w.Pos(m.sw.Pos()), "lexer literal = token constant")
+			r.Ok("R6", fn, "token "+op, w.Pos(swPos), "lexer literal = token constant")
 		} else {
-			r.Bad("R6", fn, "no lexer path produces "+op, w.Pos(m.sw.Pos()), "operator token is never produced with its own spelling as literal")
+			r.Bad("R6", fn, "no lexer path produces "+op, w.Pos(swPos), "operator token is never produced with its own spelling as literal")
 		}
 	}
 	// evaluator labels must be producible
